@@ -35,30 +35,49 @@ ENTRY_ATTRS = {"load", "loads", "Unpickler", "_Unpickler", "_load", "_loads"}
 
 
 def binding_stores(fn: FuncInfo) -> List[Tuple[str, ast.AST, ast.stmt]]:
-    """(binding, value expression, statement) for each store to a pickle-module entry point in fn's own body."""
+    """(binding, value expression, statement) for each store to a pickle-module entry point in fn's own body.  The pickle
+    module is recognised through whatever name it was imported under (module-level or function-local import)."""
+    alias = {"pickle": "pickle", "_pickle": "_pickle"}
+    for a, q in fn.module.imports.items():
+        if q in ("pickle", "_pickle"):
+            alias[a] = q
+    for n in ast.walk(fn.node):
+        if isinstance(n, ast.Import):
+            for al in n.names:
+                if al.name in ("pickle", "_pickle"):
+                    alias[al.asname or al.name] = al.name
+
+    def canon(d: Optional[str]) -> Optional[str]:
+        if not d:
+            return None
+        parts = d.split(".")
+        if parts[0] in alias and len(parts) == 2 and parts[1] in ENTRY_ATTRS:
+            return f"{alias[parts[0]]}.{parts[1]}"
+        return None
+
     out = []
     for n in body_walk(fn.node):
         if isinstance(n, ast.Assign):
             for t in n.targets:
                 if isinstance(t, (ast.Tuple, ast.List)) and isinstance(n.value, (ast.Tuple, ast.List)) and len(t.elts) == len(n.value.elts):
                     for te, ve in zip(t.elts, n.value.elts):
-                        d = dotted(te)
-                        if d and d.split(".")[0] in ("pickle", "_pickle") and d.split(".")[-1] in ENTRY_ATTRS:
+                        d = canon(dotted(te))
+                        if d:
                             out.append((d, ve, n))
                 elif isinstance(t, (ast.Tuple, ast.List)):
                     for i, te in enumerate(t.elts):
-                        d = dotted(te)
-                        if d and d.split(".")[0] in ("pickle", "_pickle") and d.split(".")[-1] in ENTRY_ATTRS:
+                        d = canon(dotted(te))
+                        if d:
                             out.append((d, ast.Subscript(value=n.value, slice=ast.Constant(i), ctx=ast.Load()), n))
                 else:
-                    d = dotted(t)
-                    if d and d.split(".")[0] in ("pickle", "_pickle") and d.split(".")[-1] in ENTRY_ATTRS and len(d.split(".")) == 2:
+                    d = canon(dotted(t))
+                    if d:
                         out.append((d, n.value, n))
-        if isinstance(n, ast.Call) and dotted(n.func) == "setattr" and len(n.args) == 3 and dotted(n.args[0]) in ("pickle", "_pickle"):
+        if isinstance(n, ast.Call) and dotted(n.func) == "setattr" and len(n.args) == 3 and dotted(n.args[0]) in alias:
             if isinstance(n.args[1], ast.Constant):
-                out.append((f"{dotted(n.args[0])}.{n.args[1].value}", n.args[2], n))
+                out.append((f"{alias[dotted(n.args[0])]}.{n.args[1].value}", n.args[2], n))
             else:
-                out.append((f"{dotted(n.args[0])}.?", n.args[2], n))
+                out.append((f"{alias[dotted(n.args[0])]}.?", n.args[2], n))
     return out
 
 
